@@ -209,6 +209,24 @@ def _set_loc(nodes: list[ast.stmt], at: ast.AST) -> None:
                 n.end_col_offset = getattr(at, "end_col_offset", 0)
 
 
+def _ancestors_in(root: ast.AST, node: ast.AST) -> list[ast.AST]:
+    """Ancestors of `node` below `root` (by search; parent links may be
+    missing in cloned trees)."""
+    path: list[ast.AST] = []
+
+    def rec(cur, trail):
+        if cur is node:
+            path.extend(trail)
+            return True
+        for ch in ast.iter_child_nodes(cur):
+            if rec(ch, trail + [cur]):
+                return True
+        return False
+
+    rec(root, [])
+    return path
+
+
 class Inliner:
 
     def __init__(self, repo: Repo, resolver):
@@ -219,7 +237,8 @@ class Inliner:
         self.skipped: list[str] = []
         self.introduced: dict[str, set[str]] = {}
 
-    def candidate(self, caller: FunctionInfo, call: ast.Call):
+    def candidate(self, caller: FunctionInfo, call: ast.Call,
+                  allow_cm: bool = False):
         targets = [t for t in self.res.resolve_call(caller, call, count=False)
                    if t.kind == "internal" and t.fn is not None]
         others = [t for t in self.res.resolve_call(caller, call, count=False)
@@ -268,7 +287,9 @@ class Inliner:
                     return None
         if h.is_classmethod:
             return None
-        if any(d.rsplit(".", 1)[-1] != "staticmethod" for d in h.decorators):
+        allowed = ("staticmethod", "contextmanager") if allow_cm else (
+            "staticmethod", )
+        if any(d.rsplit(".", 1)[-1] not in allowed for d in h.decorators):
             return None  # a decorator changes what a call means (caches ...)
         return h
 
@@ -529,6 +550,134 @@ class Inliner:
                             out += r if isinstance(r, list) else [r]
                         self.inlined.append(
                             f"{h.fq} into {caller.fq} (generator loop)")
+                        return out
+        # t = list(H(...)) with H a non-reference generator that yields at
+        # exactly one statement: `t = []` + H's body with `yield e` replaced by
+        # `t.append(e)` (arguments that name `t` itself are saved first)
+        if isinstance(st, (ast.Assign, ast.AnnAssign)) and isinstance(
+                st.value, ast.Call) and isinstance(st.value.func, ast.Name) and \
+                st.value.func.id == "list" and len(st.value.args) == 1 and \
+                not st.value.keywords and isinstance(
+                    st.value.args[0], ast.Call):
+            tgt = st.targets[0] if isinstance(st, ast.Assign) and len(
+                st.targets) == 1 else getattr(st, "target", None)
+            gcall = st.value.args[0]
+            h = self.candidate(caller, gcall) if isinstance(
+                tgt, ast.Name) else None
+            if h is not None:
+                ys = [n for n in h.body_nodes()
+                      if isinstance(n, (ast.Yield, ast.YieldFrom))]
+                plain = len(ys) == 1 and isinstance(ys[0], ast.Yield) and \
+                    ys[0].value is not None and isinstance(
+                        parent(ys[0]), ast.Expr)
+                if plain:
+                    pre: list[ast.stmt] = []
+                    gcall2 = _clone(gcall)
+                    self.counter += 1
+                    src = f"{tgt.id}__src{self.counter}"
+                    hit = False
+                    for holder in [gcall2.args] + [[k] for k in gcall2.keywords]:
+                        for i, a in enumerate(holder):
+                            node = a.value if isinstance(a, ast.keyword) else a
+                            if isinstance(node, ast.Name) and node.id == tgt.id:
+                                new_n = ast.Name(id=src, ctx=ast.Load())
+                                if isinstance(a, ast.keyword):
+                                    a.value = new_n
+                                else:
+                                    holder[i] = new_n
+                                hit = True
+                    if hit:
+                        pre.append(ast.Assign(
+                            targets=[ast.Name(id=src, ctx=ast.Store())],
+                            value=ast.Name(id=tgt.id, ctx=ast.Load())))
+                    # resolve on the original call, bind on the rewritten one
+                    gcall2.func = gcall.func
+                    body = self.inline_body(caller, gcall2, h, (lambda e: None),
+                                            True)
+                    if body is not None:
+                        tname = tgt.id
+
+                        class _YL(ast.NodeTransformer):
+
+                            def visit_Expr(self, node):
+                                if isinstance(node.value, ast.Yield):
+                                    return ast.Expr(value=ast.Call(
+                                        func=ast.Attribute(
+                                            value=ast.Name(id=tname,
+                                                           ctx=ast.Load()),
+                                            attr="append", ctx=ast.Load()),
+                                        args=[node.value.value], keywords=[]))
+                                return node
+
+                        out = pre + [ast.Assign(
+                            targets=[ast.Name(id=tname, ctx=ast.Store())],
+                            value=ast.List(elts=[], ctx=ast.Load()))]
+                        for b in body:
+                            r = _YL().visit(b)
+                            out += r if isinstance(r, list) else [r]
+                        self.inlined.append(
+                            f"{h.fq} into {caller.fq} (list of generator)")
+                        return out
+        # with H(...) as x: BODY  with H a non-reference @contextmanager
+        # generator that yields at exactly one statement: H's body with
+        # `yield e` replaced by `x = e; BODY` (an exception in BODY is thrown
+        # at the yield: the same handlers / with-exits run in both forms).
+        # BODY must not return / break / continue (the decorator would still
+        # run the code after the yield).
+        if isinstance(st, ast.With) and len(st.items) == 1 and isinstance(
+                st.items[0].context_expr, ast.Call) and (
+                    st.items[0].optional_vars is None or isinstance(
+                        st.items[0].optional_vars, ast.Name)):
+            h = self.candidate(caller, st.items[0].context_expr, allow_cm=True)
+            if h is not None and any(d.rsplit(".", 1)[-1] == "contextmanager"
+                                     for d in h.decorators):
+                ys = [n for n in h.body_nodes()
+                      if isinstance(n, (ast.Yield, ast.YieldFrom))]
+                plain = len(ys) == 1 and isinstance(ys[0], ast.Yield) and \
+                    isinstance(parent(ys[0]), ast.Expr)
+                escapes = any(isinstance(n, (ast.Break, ast.Continue, ast.Return,
+                                             ast.Yield, ast.YieldFrom))
+                              for b in st.body for n in ast.walk(b))
+                has_ret = any(isinstance(n, ast.Return) for n in h.body_nodes())
+                in_loop = any(isinstance(a, (ast.For, ast.While, ast.AsyncFor))
+                              for a in _ancestors_in(h.node, ys[0])) if plain \
+                    else True
+                if plain and not escapes and not has_ret and not in_loop:
+                    tgt = st.items[0].optional_vars
+                    rl = {}
+                    yv = ys[0].value
+                    hparams = {x.arg for x in h.node.args.posonlyargs +
+                               h.node.args.args + h.node.args.kwonlyargs}
+                    if tgt is not None and isinstance(yv, ast.Name) and \
+                            yv.id not in hparams:
+                        rl = {yv.id: tgt.id}
+                    body = self.inline_body(caller, st.items[0].context_expr, h,
+                                            (lambda e: None), True,
+                                            rename_local=rl)
+                    if body is not None:
+                        with_body = st.body
+
+                        class _YW(ast.NodeTransformer):
+
+                            def visit_Expr(self, node):
+                                if not isinstance(node.value, ast.Yield):
+                                    return node
+                                v = node.value.value
+                                pre = []
+                                if tgt is not None and not (isinstance(
+                                        v, ast.Name) and v.id == tgt.id):
+                                    pre = [ast.Assign(
+                                        targets=[_clone(tgt)],
+                                        value=v if v is not None
+                                        else ast.Constant(value=None))]
+                                return pre + [_clone(b) for b in with_body]
+
+                        out = []
+                        for b in body:
+                            r = _YW().visit(b)
+                            out += r if isinstance(r, list) else [r]
+                        self.inlined.append(
+                            f"{h.fq} into {caller.fq} (context manager)")
                         return out
         # hoisting: the first call evaluated in a simple statement
         if isinstance(st, (ast.Expr, ast.Assign, ast.AnnAssign, ast.Return,
@@ -803,13 +952,180 @@ def normalise_namedtuples(repo: Repo) -> list[str]:
     return log
 
 
+def normalise_kwargs_attrs(repo: Repo) -> list[str]:
+    """A private attribute assigned once (in __init__) to a dict display /
+    dict(k=v) with literal string keys and read only as `**self.X` in calls
+    of the same class is the repeated keyword list it abbreviates: one
+    attribute per key (the reference's `_<key>` name when it is free),
+    constants written at the call."""
+    log: list[str] = []
+    for mod in repo.hand_written():
+        for ci in mod.classes.values():
+            init = ci.methods.get("__init__")
+            if init is None:
+                continue
+            stores: dict[str, list] = {}
+            loads: dict[str, list] = {}
+            for m in ci.methods.values():
+                if isinstance(m.node, ast.Lambda):
+                    continue
+                for n in ast.walk(m.node):
+                    if isinstance(n, ast.Attribute) and isinstance(
+                            n.value, ast.Name) and n.value.id == "self" and \
+                            n.attr.startswith("_"):
+                        (stores if isinstance(n.ctx, (ast.Store, ast.Del))
+                         else loads).setdefault(n.attr, []).append((m, n))
+            ref = set(REFERENCE_ATTRS.get(ci.fq, ()))
+            cur = set(stores) | set(loads)
+            for attr, sts in stores.items():
+                if len(sts) != 1 or sts[0][0] is not init:
+                    continue
+                tgt = sts[0][1]
+                asg = parent(tgt)
+                if not isinstance(asg, (ast.Assign, ast.AnnAssign)) or \
+                        asg not in init.node.body:
+                    continue
+                val = asg.value
+                items = None
+                if isinstance(val, ast.Dict) and val.keys and all(
+                        isinstance(k, ast.Constant) and isinstance(k.value, str)
+                        for k in val.keys):
+                    items = [(k.value, v) for k, v in zip(val.keys, val.values)]
+                elif isinstance(val, ast.Call) and isinstance(
+                        val.func, ast.Name) and val.func.id == "dict" and \
+                        not val.args and val.keywords and all(
+                            k.arg for k in val.keywords):
+                    items = [(k.arg, k.value) for k in val.keywords]
+                if not items:
+                    continue
+                uses = loads.get(attr, [])
+                if not uses or not all(
+                        isinstance(parent(n), ast.keyword) and
+                        parent(n).arg is None and isinstance(
+                            parent(parent(n)), ast.Call)
+                        for _m, n in uses):
+                    continue
+                names = {}
+                for k, v in items:
+                    if isinstance(v, ast.Constant):
+                        names[k] = None
+                    else:
+                        cand = f"_{k}"
+                        names[k] = cand if (cand in ref and cand not in cur) \
+                            else f"{attr}__{k}"
+                new_stmts = []
+                for k, v in items:
+                    if names[k] is not None:
+                        s = ast.Assign(targets=[ast.Attribute(
+                            value=ast.Name(id="self", ctx=ast.Load()),
+                            attr=names[k], ctx=ast.Store())], value=v)
+                        new_stmts.append(ast.copy_location(s, asg))
+                i = init.node.body.index(asg)
+                init.node.body[i:i + 1] = new_stmts or [ast.Pass()]
+                for _m, n in uses:
+                    kw = parent(n)
+                    call = parent(kw)
+                    j = call.keywords.index(kw)
+                    call.keywords[j:j + 1] = [ast.keyword(
+                        arg=k, value=(_clone(v) if names[k] is None else
+                                      ast.Attribute(
+                                          value=ast.Name(id="self",
+                                                         ctx=ast.Load()),
+                                          attr=names[k], ctx=ast.Load())))
+                        for k, v in items]
+                ast.fix_missing_locations(mod.tree)
+                log.append(f"attribute {ci.name}.{attr} (keyword dictionary) "
+                           f"read as {sorted(x for x in names.values() if x)}")
+    return log
+
+
+def normalise_closure_defs(repo: Repo) -> list[str]:
+    """A nested `def f(<plain params>): return EXPR` (docstring allowed, no
+    decorator) that is not in the reference and whose name is only *loaded*,
+    exactly once, in the enclosing function after the def is the lambda
+    `lambda <params>: EXPR` written at that use (the pinned spelling of
+    callbacks handed to libraries)."""
+    log: list[str] = []
+    for fn in list(repo.all_functions(hand_written=True)):
+        if isinstance(fn.node, ast.Lambda):
+            continue
+        for idx, st in enumerate(list(fn.node.body)):
+            _closure_in_block(fn, fn.node, log)
+            break
+    return log
+
+
+def _closure_in_block(fn: FunctionInfo, owner: ast.AST, log: list[str]) -> None:
+    for fld in ("body", "orelse", "finalbody"):
+        blk = getattr(owner, fld, None)
+        if not (isinstance(blk, list) and blk and isinstance(blk[0], ast.stmt)):
+            continue
+        for st in list(blk):
+            if isinstance(st, ast.FunctionDef) and owner is not None and \
+                    st is not fn.node and not st.decorator_list:
+                inner_fq = f"{fn.fq}.<locals>.{st.name}"
+                if inner_fq in REFERENCE:
+                    continue
+                a = st.args
+                body = [s for s in st.body if not (isinstance(
+                    s, ast.Expr) and isinstance(s.value, ast.Constant))]
+                if a.vararg or a.kwarg or a.kwonlyargs or a.posonlyargs or \
+                        a.defaults or len(body) != 1 or not isinstance(
+                            body[0], ast.Return) or body[0].value is None or \
+                        any(isinstance(x, (ast.Yield, ast.YieldFrom, ast.Await))
+                            for x in ast.walk(body[0])):
+                    continue
+                uses = [x for x in ast.walk(fn.node) if isinstance(
+                    x, ast.Name) and x.id == st.name]
+                if len(uses) != 1 or not isinstance(uses[0].ctx, ast.Load):
+                    continue
+                use = uses[0]
+                pu = parent(use)
+                if isinstance(pu, ast.Call) and pu.func is use:
+                    continue          # called directly: the inliner's business
+                if any(use is x for x in ast.walk(st)):
+                    continue
+                lam = ast.Lambda(
+                    args=ast.arguments(posonlyargs=[], args=[
+                        ast.arg(arg=x.arg) for x in a.args], kwonlyargs=[],
+                        kw_defaults=[], defaults=[]),
+                    body=_clone(body[0].value))
+                ast.copy_location(lam, use)
+                root_stmt = use
+                while parent(root_stmt) is not None and not isinstance(
+                        root_stmt, ast.stmt):
+                    root_stmt = parent(root_stmt)
+                _ReplaceNode(use, lam).visit(root_stmt)
+                blk.remove(st)
+                if not blk:
+                    blk.append(ast.Pass())
+                ast.fix_missing_locations(fn.node)
+                log.append(f"closure {inner_fq} written as a lambda at its use")
+            elif not isinstance(st, (ast.FunctionDef, ast.AsyncFunctionDef,
+                                     ast.ClassDef)):
+                _closure_in_block(fn, st, log)
+                if isinstance(st, ast.Try):
+                    for hd in st.handlers:
+                        _closure_in_block(fn, hd, log)
+
+
 def normalise(repo: Repo, resolver_factory, max_rounds: int = 3):
     """Return (repo', log): repo with non-reference helpers inlined."""
     log: list[str] = []
+    klog = normalise_kwargs_attrs(repo)
+    if klog:
+        log += klog
+        repo = Repo(root=repo.root, overlay=repo.overlay, trees={
+            name: mod.tree for name, mod in repo.modules.items()})
     rlog = normalise_function_renames(repo) + normalise_renames(repo) + \
         normalise_namedtuples(repo)
     if rlog:
         log += rlog
+        repo = Repo(root=repo.root, overlay=repo.overlay, trees={
+            name: mod.tree for name, mod in repo.modules.items()})
+    clog = normalise_closure_defs(repo)
+    if clog:
+        log += clog
         repo = Repo(root=repo.root, overlay=repo.overlay, trees={
             name: mod.tree for name, mod in repo.modules.items()})
     from sa.dispatch import normalise_dispatch
